@@ -244,7 +244,7 @@ pub fn run_c01(out: &mut Out, rng: &mut Rng, thorough: bool, only: Option<&str>)
             s.whole(&e);
         }
         // injected states: counts that only multi-GiB inputs reach
-        let k = if thorough { 168 } else { 42 };
+        let k = if thorough { 180 } else { 45 };
         for j in 0..k {
             let st = craft_state(*v, rng, j);
             s.inject(1, &st);
@@ -288,7 +288,7 @@ pub fn craft_state(v: &dyn Var, rng: &mut Rng, recipe: usize) -> VerifGeneratorS
         let hi = (c + w).min(u32::MAX as u64);
         rng.range(lo, hi) as u32
     };
-    match recipe % 14 {
+    match recipe % 15 {
         0 => {
             for b in bk.iter_mut().take(nb) {
                 *b = rng.below(16) as u32;
@@ -406,6 +406,19 @@ pub fn craft_state(v: &dyn Var, rng: &mut Rng, recipe: usize) -> VerifGeneratorS
                 bk.swap(i, j);
             }
         }
+        14 => {
+            // extremes as quartile values: a quarter-plus-one / half / three quarters / all of the buckets hold
+            // EXACTLY u32::MAX (then 2^31, 2^31 - 1, 0 on later rounds), the others anything below
+            let e = [u32::MAX, 0x8000_0000, 0x7fff_ffff, 0][(recipe / 15) % 4];
+            let many = [nb / 4 + 1, nb / 2, 3 * nb / 4, nb][rng.below(4) as usize];
+            for (i, b) in bk.iter_mut().take(nb).enumerate() {
+                *b = if i < many { e } else if e == 0 { 1 + rng.below(1000) as u32 } else { rng.range(0, e as u64 - 1) as u32 };
+            }
+            for i in (1..nb).rev() {
+                let j = rng.below(i as u64 + 1) as usize;
+                bk.swap(i, j);
+            }
+        }
         _ => {
             // all equal
             let c = *rng.pick(&[0u32, 1, 7, 671_089, 1 << 24, 42_949_673, 0x8000_0000, u32::MAX]);
@@ -492,6 +505,34 @@ pub fn run_c03(out: &mut Out, rng: &mut Rng, thorough: bool, only: Option<&str>)
                 s.update(1, &rng.bytes(9));
                 s.fin(1);
                 s.update(0, &rng.bytes(2));
+                s.fin(0);
+            }
+        }
+        // a few buffered bytes, then ONE piece at the sizes where implementations switch strategy
+        // (4 KiB, 64 KiB, 1 MiB, each -1 / +0 / +1), then a few more bytes
+        for head in 1..=5usize {
+            let sizes: Vec<u64> = if thorough && (v.ck_len() == 1 || head == 2) {
+                vec![4095, 4096, 4097, 65_535, 65_536, 65_537, (1 << 20) - 1, 1 << 20, (1 << 20) + 1]
+            } else if thorough {
+                vec![4095, 4096, 4097, 65_535, 65_536, 65_537]
+            } else if head == 3 && v.ck_len() == 1 {
+                vec![4096, 65_535 + (head as u64 % 3), 1 << 20]
+            } else {
+                // (three-byte checksums are stepped by TLC: the 1 MiB piece is kept for the thorough tier)
+                vec![4096, 65_535 + (head as u64 % 3)]
+            };
+            for n in sizes {
+                let pat = rng.bytes(41);
+                s.new_gen(0);
+                if head % 2 == 0 {
+                    s.update(0, &rng.bytes(head));
+                } else {
+                    for _ in 0..head {
+                        s.update(0, &rng.bytes(1));
+                    }
+                }
+                s.update_periodic(0, &pat, 0, n, rng, true);
+                s.update(0, &rng.bytes(3));
                 s.fin(0);
             }
         }
@@ -629,7 +670,8 @@ pub fn run_c10(out: &mut Out, rng: &mut Rng, thorough: bool, only: Option<&str>)
             s.fin(1);
         }
         for j in 0..(if thorough { 40 } else { 8 }) {
-            let mut st = craft_state(*v, rng, 10 + 12 * j); // sparse recipes
+            let _ = j;
+            let mut st = craft_state(*v, rng, 10); // the sparse recipe (its fill count is drawn afresh each time)
             st.len = *rng.pick(&[c[0] - 5, c[0] - 4, c[1] - 5, c[1] - 4, 1000]);
             s.inject(1, &st);
             s.fin(1);
@@ -716,7 +758,7 @@ pub fn run_agg(out: &mut Out, rng: &mut Rng, thorough: bool, only: Option<&str>)
             continue;
         }
         let nb = v.nb();
-        for j in 0..(if thorough { 120 } else { 24 }) {
+        for j in 0..(if thorough { 120 } else { 30 }) {
             let st = craft_state(v, rng, j);
             let bk = &st.buckets[..nb];
             // quartiles: the exact ones, and arbitrary q1 <= q2 <= q3 (the back ends must not depend on exactness)
